@@ -138,3 +138,23 @@ Example ex_served_window :
   option_map hdr_of (served after 8) = option_map hdr_of (served before 8) /\
   served after 8 <> None /\ served after 9 = None.
 Proof. vm_compute. repeat split. discriminate. Qed.
+
+(* the execution layer hands back a state root of LENGTH 0 (root id 0 in the harness's numbering: an empty
+   root is just another root value, the theorems above quantify over it) for height 2 while the state before
+   had root 2: the recorded state root becomes 0 — not the previous root 2 —, block 3 carries AppHash 0 and
+   is executed on previous root 0; the maxBytes value ExecuteTxs returns is not an input of [step]
+   (block/manager.go:932 discards it): the block built from a batch holds all of its transactions whatever
+   was returned (the harness varies the value, the model's prediction does not depend on it) *)
+Definition er_history : list item :=
+  [ IRun (ABoot (Some 1)); IRun (AStep SNil (EOk 2)); IRun (AStep (SBatch [5; 6] 1000%Z 1) (EOk 0));
+    IRun (AStep (SBatch [7; 8; 9] 2000%Z 2) (EOk 4)) ].
+Example ex_empty_root :
+  map o_res (outputs f1_cfg er_history) = [OBootOk; OCommitted 1; OCommitted 2; OCommitted 3]
+  /\ option_map s_app (g_state (img_of (run f1_cfg (firstn 2 er_history)))) = Some 2
+  /\ option_map s_app (g_state (img_of (run f1_cfg (firstn 3 er_history)))) = Some 0
+  /\ option_map (fun b => h_app (hdr_of b)) (served (run f1_cfg er_history) 2) = Some 2
+  /\ option_map (fun b => (h_app (hdr_of b), d_txs (b_data b))) (served (run f1_cfg er_history) 3) = Some (0, [7; 8; 9])
+  /\ map o_call (outputs f1_cfg (firstn 4 er_history)) =
+       [None; Some (1, [], 0%Z, 1); Some (2, [5; 6], 1000%Z, 2); Some (3, [7; 8; 9], 2000%Z, 0)]
+  /\ option_map s_app (g_state (img_of (run f1_cfg er_history))) = Some 4.
+Proof. vm_compute. repeat split. Qed.
